@@ -8,6 +8,6 @@ W=$(mktemp -d /tmp/qseed.XXXXXX)
 git -C /repo worktree add -q --detach "$W/r" HEAD || exit 2
 ( cd "$W/r" && git apply "$( [ -f "$SD/patch_rebased.diff" ] && echo "$SD/patch_rebased.diff" || echo "$SD/patch.diff")" ) || { echo "PATCH-DOES-NOT-APPLY"; git -C /repo worktree remove --force "$W/r"; rm -rf "$W"; exit 2; }
 HA=""; [ -n "$H" ] && HA="--harness $H"
-cd /verif && timeout 3000 bin/gclverify check --property "$P" --repo "$W/r" --no-evidence $HA 2>&1 | sed 's/model=map\[[^]]*\]//' | grep -E "^SUMMARY|^VIOLATION|^INCONCLUSIVE|violation:|^KNOWN|harness " | cut -c1-420 | head -${LINES_MAX:-14}
+cd /verif && timeout 3000 bin/gclverify check --property "$P" --repo "$W/r" --no-evidence $HA 2>&1 | sed 's/model=map\[[^]]*\]//' | grep -E "^SUMMARY|^VIOLATION|^INCONCLUSIVE|violation:|^KNOWN" | cut -c1-420 | head -${LINES_MAX:-14}
 rm -rf /verif/replays
 cd /; git -C /repo worktree remove --force "$W/r"; rm -rf "$W"
